@@ -179,3 +179,11 @@ func VerifTeletextTables() (d VerifTeletextTableDump) {
 	}
 	return
 }
+
+// VerifTeletextHamming2418 exposes teletextHamming2418Decode (-1 when the triplet is rejected)
+func VerifTeletextHamming2418(b0, b1, b2 uint8) int {
+	if v, ok := teletextHamming2418Decode(b0, b1, b2); ok {
+		return int(v)
+	}
+	return -1
+}
